@@ -764,3 +764,26 @@ def c02_k(ctx):
                                 src(a)), fn=f, node=a)
     if n < 2:
         ctx.undecided('expected at least two draws in the samplers module, found {}'.format(n))
+
+
+_C02_GUARDS = [
+    ('elfi.loader:RandomStateLoader.load', 'assign:get_np_random',
+     [("_s == 'global'", True)], 'the process-wide generator is used only for seed == "global"'),
+    ('elfi.loader:RandomStateLoader.load', "assign:'operation'",
+     [("_s == 'global'", True)], 'a delayed generator is stored as an operation'),
+    ('elfi.loader:RandomStateLoader.load', 'assign:np.random.RandomState(_x)',
+     [("_s == 'global'", False), ('isinstance(_s, (int, np.int32, np.uint32))', True)],
+     'an integer seed gives a generator built from the derived seed'),
+    ('elfi.loader:RandomStateLoader.load', 'raise:0',
+     [("_s == 'global'", False), ('isinstance(_s, (int, np.int32, np.uint32))', False)],
+     'any other kind of seed is refused'),
+]
+
+
+@obligation('C02-l', 'T11', 'the batch generator is chosen on the right side of the seed tests '
+            '(frozen table of {} rows)'.format(len(_C02_GUARDS)), floor=len(_C02_GUARDS),
+            necessary='with the tests negated an integer seed silently gets the process-wide '
+                      'generator: the run is no longer a function of the seed')
+def c02_l(ctx):
+    from .base import check_guard_table
+    check_guard_table(ctx, _C02_GUARDS)
